@@ -46,9 +46,24 @@ def materialise(case, root: str):
         p = real(f['path'], root)
         if not os.path.isabs(p):
             p = os.path.join(root, 'cwd', p)
+        fskind = f.get('fskind', 'file')
+        if fskind == 'under-file':          # a component of the path is a regular file: NotADirectoryError on open
+            parent = os.path.dirname(p)
+            os.makedirs(os.path.dirname(parent), exist_ok=True)
+            with open(parent, 'w') as fh:
+                fh.write('not a directory\n')
+            continue
         os.makedirs(os.path.dirname(p), exist_ok=True)
-        with open(p, 'w', encoding='ascii', newline='\n') as fh:
-            fh.write(f['text'])
+        if fskind == 'dir':                 # a directory where the file is expected: IsADirectoryError
+            os.makedirs(p, exist_ok=True)
+        elif fskind == 'loop':              # a symlink to itself: OSError ELOOP
+            os.symlink(os.path.basename(p), p)
+        elif f.get('hex') is not None:
+            with open(p, 'wb') as fh:
+                fh.write(bytes.fromhex(f['hex']))
+        else:
+            with open(p, 'w', encoding='ascii', newline='\n') as fh:
+                fh.write(f['text'])
 
 
 def child_env(case, root: str, repo: str):
@@ -57,6 +72,12 @@ def child_env(case, root: str, repo: str):
     for k, v in case['env'].items():
         env[k] = real(v, root)
     env.setdefault('HOME', os.path.join(root, 'home'))
+    if case.get('platform') in ('macos', 'windows'):
+        env['C20_PLATFORM'] = case['platform']
+    if case.get('syspath_extra'):
+        env['C20_SYSPATH_EXTRA'] = '|'.join(case['syspath_extra'])
+    if case.get('hashseed') is not None:
+        env['PYTHONHASHSEED'] = str(case['hashseed'])
     return env
 
 
